@@ -3,9 +3,10 @@ CONSTANTS
   Locked = TRUE
   Bodies <- BodiesH
   Modes <- AllModes
+  Seconds <- NoSecond
   TickMs <- Ticks1
   MaxTicks = 2
-  MaxPre = 4
+  MaxPre = 3
 INVARIANT NoMix
 INVARIANT Joined
 INVARIANT EndFrame
